@@ -32,6 +32,19 @@
 (* in memory + 1) for int, long, int256, t.inner, Bool, bytes elements -- with a *)
 (* field after it, and as the last field.  Vectors: t.main with the two lengths, *)
 (* and t.call whose answer carries the longer one.                               *)
+(*                                                                               *)
+(* Family I (shape numbers IBase + i): the constructors of the two multi-        *)
+(* constructor types are declared NON-contiguously -- t.alt1 t.alt2 t.u1 t.u2    *)
+(* t.alt3 t.u3 [t.alt4] -- which TL allows (a type is the set of constructors    *)
+(* with that result, wherever they stand).  Vectors take every constructor of    *)
+(* both types, alone (Enc) and as the answer of a request (Call).                *)
+(*                                                                               *)
+(* Family B (shape numbers BBase + i): a Bool first, last, and as vector         *)
+(* element.  Besides the usual vectors, each schema gets REFUSAL vectors (op     *)
+(* Rej): the bytes of a value of t.main with the word at the Bool position       *)
+(* replaced by a word that is neither boolTrue nor boolFalse (zero, the two ids  *)
+(* byte-swapped, all ones, boolTrue + 1, 1).  TlSem!Dec refuses them (checked    *)
+(* here); the generated UnmarshalTL must refuse them too.                        *)
 EXTENDS TlGen
 CONSTANTS Seed, Ns, PerSchema       \* Ns: the set of shape numbers this run emits
 
@@ -66,7 +79,24 @@ IsL(n) == n >= LBase /\ n < LBase + LCount
 LShape(i) == IF i % 2 = 0 THEN <<P(V(LTys[(i \div 2) + 1])), P("int")>> ELSE <<P("long"), P(V(LTys[(i \div 2) + 1]))>>
 LField(i) == IF i % 2 = 0 THEN "f1" ELSE "f2"
 
+\* ---- family I
+IBase  == 9200000
+ISh    == << <<P("int"), P("bytes")>>, <<P(V("int")), P("long")>> >>
+ICount == 4
+IsI(n) == n >= IBase /\ n < IBase + ICount
+IShape(i) == ISh[(i \div 2) + 1]
+
+\* ---- family B
+BBase  == 9300000
+BSh    == << <<P("Bool"), P("int")>>, <<P("long"), P("Bool")>>, <<P(V("Bool")), P("int")>> >>
+BCount == Len(BSh)
+IsB(n) == n >= BBase /\ n < BBase + BCount
+BField(i) == IF i = 1 THEN "f2" ELSE "f1"
+BadWords == <<<<0, 0, 0, 0>>, Rev(BoolTrue), Rev(BoolFalse), <<255, 255, 255, 255>>, <<BoolTrue[1] + 1, BoolTrue[2], BoolTrue[3], BoolTrue[4]>>, <<1, 0, 0, 0>>>>
+
 Shape(n) == IF n < NA THEN <<Alphabet[n + 1]>>
+            ELSE IF IsI(n) THEN IShape(n - IBase)
+            ELSE IF IsB(n) THEN BSh[n - BBase + 1]
             ELSE IF IsF(n) THEN FShape(n - FBase)
             ELSE IF IsL(n) THEN LShape(n - LBase)
             ELSE LET ctx == B4(Seed) \o B4(n) \o <<77>>
@@ -105,7 +135,23 @@ AltFields(i) == CASE i = 1 -> <<>>
                   [] i = 3 -> <<[name |-> "y", ty |-> "bytes"], [name |-> "z", ty |-> "long"]>>
                   [] i = 4 -> <<[name |-> "w", ty |-> V("int")]>>
                   [] OTHER -> <<[name |-> "h", ty |-> "int256"], [name |-> "b", ty |-> "Bool"]>>
+ISchema(i) ==
+  LET sh == IShape(i)
+      ka == 3 + (i % 2)
+      alt(j) == D(CatAll(<<"t.alt", ToString(j)>>), "t.Sum", AltFields(j))
+      u(j)   == D(CatAll(<<"t.u", ToString(j)>>), "t.Union", Fields(Rot(<<P("int"), P("bytes")>>, j - 1)))
+  IN [types |->
+           <<D("liteServer.error", "liteServer.Error", <<[name |-> "code", ty |-> "int"], [name |-> "message", ty |-> "string"]>>),
+             D("t.inner", "t.Inner", <<[name |-> "a", ty |-> "int"], [name |-> "b", ty |-> "bytes"]>>),
+             alt(1), alt(2), u(1), u(2), alt(3), u(3)>>
+        \o (IF ka = 4 THEN <<alt(4)>> ELSE <<>>)
+        \o <<D("t.main", "t.Main", Fields(sh))>>,
+      functions |->
+           <<D("t.call", "t.Main", Fields(sh)),
+             D("t.callu", "t.Union", <<[name |-> "x", ty |-> "int"]>>),
+             D("t.calls", "t.Sum", <<>>)>>]
 SchemaOf(n) ==
+  IF IsI(n) THEN ISchema(n - IBase) ELSE
   LET sh == Shape(n)
       ka == 2 + (n % 4)                 \* constructors of t.Sum
       ku == 2 + ((n \div 4) % 4)        \* constructors of t.Union
@@ -127,6 +173,14 @@ Targets == <<T("t.main", "Enc"), T("t.main", "Enc"), T("t.main", "Enc"), T("t.ma
              T("t.call", "Call"), T("t.call", "Call"), T("t.call", "Call"), T("t.call", "Call"),
              T("t.Sum", "Enc"), T("t.inner", "Enc"), T("t.callu", "Call"), T("t.calls", "Call"), T("t.callu", "Fn")>>
 NT == Len(Targets)
+ITargets == <<T("t.Sum", "Enc"), T("t.Sum", "Enc"), T("t.Sum", "Enc"), T("t.Sum", "Enc"),
+              T("t.Union", "Enc"), T("t.Union", "Enc"), T("t.Union", "Enc"),
+              T("t.calls", "Call"), T("t.calls", "Call"), T("t.calls", "Call"), T("t.calls", "Call"),
+              T("t.callu", "Call"), T("t.callu", "Call"), T("t.callu", "Call"),
+              T("t.main", "Enc"), T("t.main", "Enc"), T("t.call", "Call"), T("t.call", "Call"), T("t.Sum", "Enc"), T("t.Union", "Enc")>>
+ISane(vs) == /\ \E j \in 1..Len(vs) : vs[j].ty = "t.Sum" /\ vs[j].op = "Enc" /\ vs[j].v["_"] = "t.alt3"
+             /\ \E j \in 1..Len(vs) : vs[j].ty = "t.Union" /\ vs[j].op = "Enc" /\ vs[j].v["_"] = "t.u3"
+             /\ \E j \in 1..Len(vs) : vs[j].ty = "t.calls" /\ ~vs[j].is_err /\ vs[j].resv["_"] = "t.alt3"
 
 \* family F: vector x of t.main / t.call with the conditional field (present: bit set) emptied; t.main Enc vectors get `wrong`
 FieldIdx(d, name) == CHOOSE i \in 1..Len(d.fields) : d.fields[i].name = name
@@ -159,16 +213,35 @@ LVecs(S, n) ==
 LSane(n, vs) == LET i == n - LBase  lim == LLim[(i \div 2) + 1] IN
   Len(vs[1].v[LField(i)]) = lim /\ Len(vs[2].v[LField(i)]) = lim + 1 /\ ~vs[3].is_err /\ Len(vs[3].resv[LField(i)]) = lim + 1
 
+\* family B: refusal vectors -- a value of t.main (vector element: two elements, the second one's word is replaced)
+BRej(S, n, w) ==
+  LET i   == n - BBase
+      x   == VecOfOv(S, T("t.main", "Enc"), 100 + w, B4(Seed) \o B4(n) \o B4(100 + w), 0, [decl |-> "t.main", field |-> "f1", n |-> 2])
+      d   == CtorDecl(S, "t.main")
+      hx  == HexToBytes(x.hex)
+      tl  == EncFields(S, d, x.v, FieldIdx(d, BField(i)))
+      off == Len(hx) - Len(tl) + (IF i = 2 THEN 8 ELSE 0)
+      bad == SubSeq(hx, 1, off) \o BadWords[w] \o SubSeq(hx, off + 5, Len(hx))
+  IN [vec |-> PerSchema + w - 1, ty |-> "t.main", op |-> "Rej", v |-> x.v, hex |-> BytesToHex(bad), valid_hex |-> x.hex]
+BSane(S, vs) == \A j \in 1..Len(vs) : vs[j].op = "Rej" =>
+                   /\ ~Dec(S, vs[j].ty, HexToBytes(vs[j].hex)).ok
+                   /\ Dec(S, vs[j].ty, HexToBytes(vs[j].valid_hex)).ok /\ Len(vs[j].hex) = Len(vs[j].valid_hex) /\ vs[j].hex # vs[j].valid_hex
+
 Out(n) ==
   LET S == SchemaOf(n)
       vs == IF IsL(n) THEN LVecs(S, n)
             ELSE IF IsF(n) THEN [j \in 1..PerSchema |-> FVec(S, n, j)]
+            ELSE IF IsB(n) THEN [j \in 1..PerSchema |-> VecOf(S, Targets[((j - 1) % NT) + 1], j - 1, B4(Seed) \o B4(n) \o B4(j), j - 1)]
+                                \o [w \in 1..Len(BadWords) |-> BRej(S, n, w)]
+            ELSE IF IsI(n) THEN [j \in 1..Len(ITargets) |-> VecOf(S, ITargets[j], j - 1, B4(Seed) \o B4(n) \o B4(j), j - 1)]
             ELSE [j \in 1..PerSchema |-> VecOf(S, Targets[((j - 1) % NT) + 1], j - 1, B4(Seed) \o B4(n) \o B4(j), j - 1)]
-  IN [schema |-> n, ast |-> S, kinds |-> [i \in 1..Len(Shape(n)) |-> KindLabel(Shape(n)[i])],
+  IN [schema |-> n, ast |-> S, kinds |-> (IF IsI(n) THEN <<"non-contiguous-constructors">> ELSE <<>>) \o [i \in 1..Len(Shape(n)) |-> KindLabel(Shape(n)[i])],
       sumctor_conditional |-> UnionFlags(n) /\ HasFlagged(Shape(n)), vecs |-> vs,
       sane |-> /\ \A j \in 1..Len(vs) : VecSane(S, vs[j])
                /\ (IsF(n) => FSane(S, vs))
-               /\ (IsL(n) => LSane(n, vs))]
+               /\ (IsL(n) => LSane(n, vs))
+               /\ (IsI(n) => ISane(vs))
+               /\ (IsB(n) => BSane(S, vs))]
 
 Init == k \in Ns                    \* one initial state per shape; nothing else happens
 Next == UNCHANGED k
